@@ -24,6 +24,17 @@ def scenario(exe, root, seed, stats):
         stats['not_clean'] += 1
         shutil.rmtree(root, ignore_errors=True)
         return None
+    # same-size files on a disk (sometimes): what an exchange of names or a reused inode can confuse
+    if rng.chance(3, 4):
+        sure = rng.choice(a.disks)
+        for d in a.disks:
+            if d == sure or rng.chance(1, 2):
+                sz = 1 + rng.below(3 * a.block)
+                for t in range(2 + rng.below(2)):
+                    a.write(d, 'twin/t%d' % t, rng.bytes(sz), s.tick())
+        s.sync()
+        if s.run('diff').rc != 0:
+            stats['not_clean'] += 1; a.destroy(); return None
     # hash migration in progress (sometimes): rehash, then only part of the array is converted to the new hash
     # (a partial scrub, and/or files synced after the rehash), so stripes of both kinds exist when the damage comes
     migrating = False
@@ -50,11 +61,16 @@ def scenario(exe, root, seed, stats):
     results = []
     for rep in range(3):
         shutil.rmtree(a.root); shutil.copytree(backup, a.root, symlinks=True)
-        kind = rng.choice(['devices', 'devices', 'stripes', 'mixed'])
+        kind = rng.choice(['devices', 'devices', 'stripes', 'mixed', 'exchange'])
         desc = []
         cols = a.disks + ['P%d' % l for l in range(N)]
+        force_x = kind == 'exchange'
+        if force_x:
+            kind = 'mixed'
+            tw = [d for d in a.disks if os.path.isdir(a.path(d, 'twin'))]
+            cols = tw or list(a.disks)
         if kind == 'devices':
-            k = 1 + rng.below(N)
+            k = min(1 + rng.below(N), len(cols))
             chosen = []
             while len(chosen) < k:
                 c = rng.choice(cols)
@@ -86,7 +102,7 @@ def scenario(exe, root, seed, stats):
                         if fx.flip_parity_block(a, rng, x, pos): desc.append('stripe %d: parity level %d silently changed' % (pos, x))
         else:
             # damage confined to <= N columns: files deleted / truncated / flipped, parity partly corrupted
-            k = 1 + rng.below(N)
+            k = min(1 + rng.below(N), len(cols))
             chosen = []
             while len(chosen) < k:
                 c = rng.choice(cols)
@@ -98,6 +114,22 @@ def scenario(exe, root, seed, stats):
                             fx.flip_parity_block(a, rng, int(c[1:]), pos)
                     desc.append('parity level %s partly corrupted' % c[1:])
                 else:
+                    # files of the disk exchanged in pairs (rename): every path then holds the bytes, time-stamp and inode
+                    # recorded for ANOTHER path of the same disk (same-size pairs preferred)
+                    if force_x or rng.chance(1, 2):
+                        # (non-empty files only: exchanging two empty files changes nothing but time-stamps, and a
+                        # time-stamp-only change is not damage fix is asked to undo)
+                        mine = [(d, rel) for (d, rel) in s.existing_files() if d == c and os.path.getsize(a.path(d, rel)) > 0]
+                        bysize = {}
+                        for (d, rel) in mine: bysize.setdefault(os.path.getsize(a.path(d, rel)), []).append(rel)
+                        pairs = [v[:2] for v in bysize.values() if len(v) >= 2]
+                        if not pairs and len(mine) >= 2 and not force_x: pairs = [[mine[0][1], mine[-1][1]]]
+                        for r1, r2 in pairs[:1 + rng.below(3)]:
+                            p1, p2 = a.path(c, r1), a.path(c, r2); tmpx = p1 + '.xchg'
+                            if open(p1, 'rb').read() == open(p2, 'rb').read(): continue
+                            os.rename(p1, tmpx); os.rename(p2, p1); os.rename(tmpx, p2)
+                            desc.append('%s: %r and %r exchanged' % (c, r1, r2))
+                            stats['exchanged'] = stats.get('exchanged', 0) + 1
                     for (d, rel) in s.existing_files():
                         if d != c: continue
                         p = a.path(d, rel); st = os.lstat(p)
